@@ -80,7 +80,25 @@ def check(rep, an, tier):
                               where=res.fn.loc(), construct="degree of compute_gamut in X", entry=entry, config=res.config, msg=f"degree {d}")
                 if rel_to:
                     rec = [ev for ev in res.events("call") if ev.d["callee"].name == "compute_gamut" and R.near(ev)]
-                    rep.check("R-FORWARD", "denominator computed by the same metric function", bool(rec), where=res.fn.loc(),
+                    # … by the recursive call, or (unrolled) by a second evaluation of the same metric function on the reference cloud with the
+                    # same keyword set as the numerator's
+                    mfn = "compute_mean_width" if metric == "width" else "compute_volume"
+                    mcalls = [ev for ev in res.events("call") if ev.d["callee"].name == mfn]
+                    def first_arg_deps(ev):
+                        a0 = ev.d["args"][0] if ev.d["args"] else ev.d["kws"].get("X")
+                        return {o.split("|")[0] for o in a0.flat().data} if a0 is not None else set()
+                    den = [ev for ev in mcalls if "relative_to" in first_arg_deps(ev)]
+                    num_ = [ev for ev in mcalls if "X" in first_arg_deps(ev) and "relative_to" not in first_arg_deps(ev)]
+                    unrolled = None
+                    if not rec and den and num_:
+                        def kwdeps(ev, p):
+                            v_ = ev.d["kws"].get(p)
+                            if v_ is None and ev.d["kws"].get("**") is not None:
+                                kw_ = ev.d["kws"]["**"].tag("kw") or {}
+                                v_ = kw_.get(p)
+                            return None if v_ is None else {o.split("|")[0] for o in v_.flat().deps_all()}
+                        unrolled = all((kwdeps(d_, p) or set()) >= {p} for d_ in den for p in (("seed", "center") if metric == "width" else ()))
+                    rep.check("R-FORWARD", "denominator computed by the same metric function", bool(rec) or bool(unrolled), where=res.fn.loc(),
                               construct="compute_gamut(relative_to, …) inside compute_gamut", entry=entry, config=res.config)
                     for ev in rec:
                         fn = ev.d["callee"]
